@@ -317,6 +317,11 @@ inline void m12(const Edge& e, const Parsed& P) {
 		for (int x = 0; x <= N; ++x) if (x != act && g_loadbuf_ok[x] && !memcmp(&g_savebuf.buf, &g_loadbuf[x].buf, sizeof g_savebuf.buf)) flag(C12, "buffers-collide", e, "same buffer as activity %d", x);
 		return;
 	}
+	if (e.op.k == OP_LOAD_BLANK) {   // a buffer that describes no activity loaded into an automatically activated machine: the library ignores it
+		if (!e.key_unchanged) flag(C12, "blank-buffer-load-changed-machine", e, "state differs after loading a buffer whose activity bit is clear");
+		if (P.ncb) flag(C12, "blank-buffer-load-ran-callbacks", e, "%d callbacks", P.ncb);
+		return;
+	}
 	if (e.op.k == OP_LOAD) {
 		const uint8_t want = e.op.a == N ? NONE8 : e.op.a;
 		const uint8_t A = e.pre.active;
